@@ -21,6 +21,7 @@ import (
 
 	auctypes "github.com/comdex-official/comdex/x/auctionsV2/types"
 	esmtypes "github.com/comdex-official/comdex/x/esm/types"
+	lendtypes "github.com/comdex-official/comdex/x/lend/types"
 	liqtypes "github.com/comdex-official/comdex/x/liquidity/types"
 	lockertypes "github.com/comdex-official/comdex/x/locker/types"
 	vaulttypes "github.com/comdex-official/comdex/x/vault/types"
@@ -40,9 +41,10 @@ type c12Attempt struct {
 }
 
 type c12Case struct {
-	World string `json:"world"`
-	V     *vCase `json:"v,omitempty"`
-	L     *lCase `json:"l,omitempty"`
+	World string  `json:"world"`
+	V     *vCase  `json:"v,omitempty"`
+	L     *lCase  `json:"l,omitempty"`
+	Ld    *ldCase `json:"lend,omitempty"`
 }
 
 // anteOnly reports whether every change is something the ante handler writes for any transaction.
@@ -304,6 +306,96 @@ func c12VaultAttempts(m *vMachine) []c12Attempt {
 	return out
 }
 
+// c12LendAttempts: every message that names a lend or a borrow position, built valid for its owner.
+func c12LendAttempts(m *ldMachine) []c12Attempt {
+	c := m.c
+	var out []c12Attempt
+	add := func(kind string, owner int, build func(sdk.AccAddress) sdk.Msg) {
+		out = append(out, c12Attempt{Kind: kind, Owner: owner, build: build})
+	}
+	for _, l := range m.k.GetAllLend(c.Ctx) {
+		l := l
+		ai := m.assetIdx(l.AssetID)
+		owner := m.userIdx(l.Owner)
+		if ai < 0 || owner < 0 {
+			continue
+		}
+		den := ldDenom(ai)
+		part := l.AvailableToBorrow.QuoRaw(2)
+		if part.IsPositive() {
+			add("lend-withdraw-part", owner, func(f sdk.AccAddress) sdk.Msg {
+				return lendtypes.NewMsgWithdraw(f.String(), l.ID, sdk.NewCoin(den, part))
+			})
+		}
+		if l.AvailableToBorrow.IsPositive() {
+			// exactly everything that is available: the handler turns this into a close
+			add("lend-withdraw-all", owner, func(f sdk.AccAddress) sdk.Msg {
+				return lendtypes.NewMsgWithdraw(f.String(), l.ID, sdk.NewCoin(den, l.AvailableToBorrow))
+			})
+		}
+		add("lend-close", owner, func(f sdk.AccAddress) sdk.Msg { return lendtypes.NewMsgCloseLend(f.String(), l.ID) })
+		// borrowing against somebody else's lend position
+		for _, p := range m.pairs {
+			p := p
+			if p.AssetIn != l.AssetID || p.IsInterPool || p.AssetOutPoolID != l.PoolID {
+				continue
+			}
+			coll := l.AvailableToBorrow.QuoRaw(2)
+			if !coll.IsPositive() {
+				break
+			}
+			add("borrow-against-lend", owner, func(f sdk.AccAddress) sdk.Msg {
+				return lendtypes.NewMsgBorrow(f.String(), l.ID, p.Id, false, sdk.NewCoin(ldCDenom(ai), coll), sdk.NewCoin(ldDenom(m.assetIdx(p.AssetOut)), sdk.NewInt(2000000)))
+			})
+			break
+		}
+	}
+	for _, b := range m.k.GetAllBorrow(c.Ctx) {
+		b := b
+		if b.IsLiquidated {
+			continue
+		}
+		l, ok := m.k.GetLend(c.Ctx, b.LendingID)
+		owner := m.userIdx(l.Owner)
+		if !ok || owner < 0 {
+			continue
+		}
+		p := m.pairByID(b.PairID)
+		outDen := ldDenom(m.assetIdx(p.AssetOut))
+		add("borrow-draw", owner, func(f sdk.AccAddress) sdk.Msg {
+			return lendtypes.NewMsgDraw(f.String(), b.ID, sdk.NewCoin(outDen, sdk.NewInt(1)))
+		})
+		add("borrow-repay", owner, func(f sdk.AccAddress) sdk.Msg {
+			return lendtypes.NewMsgRepay(f.String(), b.ID, sdk.NewCoin(outDen, clampPos(b.AmountOut.Amount.QuoRaw(3))))
+		})
+		add("borrow-close", owner, func(f sdk.AccAddress) sdk.Msg { return lendtypes.NewMsgCloseBorrow(f.String(), b.ID) })
+		add("borrow-deposit", owner, func(f sdk.AccAddress) sdk.Msg {
+			return lendtypes.NewMsgDepositBorrow(f.String(), b.ID, sdk.NewCoin(b.AmountIn.Denom, sdk.NewInt(1)))
+		})
+	}
+	return out
+}
+
+// c12LendForeign digests every lend and borrow position that does not belong to `from`.
+func c12LendForeign(m *ldMachine) func(sdk.AccAddress) string {
+	return func(from sdk.AccAddress) string {
+		var b strings.Builder
+		owners := map[uint64]string{}
+		for _, l := range m.k.GetAllLend(m.c.Ctx) {
+			owners[l.ID] = l.Owner
+			if l.Owner != from.String() {
+				fmt.Fprintf(&b, "lend %d %s in=%s avail=%s\n", l.ID, l.Owner, l.AmountIn, l.AvailableToBorrow)
+			}
+		}
+		for _, x := range m.k.GetAllBorrow(m.c.Ctx) {
+			if owners[x.LendingID] != from.String() {
+				fmt.Fprintf(&b, "borrow %d lend=%d in=%s out=%s\n", x.ID, x.LendingID, x.AmountIn, x.AmountOut)
+			}
+		}
+		return b.String()
+	}
+}
+
 func c12LiquidityAttempts(m *lMachine) []c12Attempt {
 	c, cfg := m.c, &m.cs.Cfg
 	var out []c12Attempt
@@ -389,8 +481,19 @@ func TestC12_positions(t *testing.T) {
 	rapid.Check(t, func(rt *rapid.T) {
 		r.Guard(func() {
 			r.Eval()
-			cs := &c12Case{World: rapid.SampledFrom([]string{"vault", "liquidity"}).Draw(rt, "world")}
-			if cs.World == "vault" {
+			cs := &c12Case{World: rapid.SampledFrom([]string{"vault", "liquidity", "lend"}).Draw(rt, "world")}
+			if cs.World == "lend" {
+				lc := &ldCase{Cfg: genLdCfg(rt)}
+				cs.Ld = lc
+				m := newLdMachine(rt, r, "C12", lc)
+				n := rapid.IntRange(15, 45).Draw(rt, "nops")
+				for i := 0; i < n; i++ {
+					op := m.genOp(rt, i)
+					lc.Ops = append(lc.Ops, op)
+					m.apply(i, op)
+				}
+				c12RunAttempts(rt, r, cs, m.c, c12LendAttempts(m), lc.Cfg.NUsers, c12LendForeign(m))
+			} else if cs.World == "vault" {
 				vc := &vCase{Cfg: genVCfg(rt, "C13", true)}
 				cs.V = vc
 				m := newVMachine(rt, r, "C12", vc)
@@ -426,7 +529,13 @@ func init() {
 			t.Fatal(err)
 		}
 		r.Eval()
-		if cs.World == "vault" {
+		if cs.World == "lend" {
+			m := newLdMachine(t, r, "C12", cs.Ld)
+			for i, op := range cs.Ld.Ops {
+				m.apply(i, op)
+			}
+			c12RunAttempts(t, r, &cs, m.c, c12LendAttempts(m), cs.Ld.Cfg.NUsers, c12LendForeign(m))
+		} else if cs.World == "vault" {
 			m := newVMachine(t, r, "C12", cs.V)
 			for i, op := range cs.V.Ops {
 				m.apply(i, op)
